@@ -2,7 +2,7 @@ SPECIFICATION CaseSpec
 CONSTANTS
   Keys = {"ka", "kb", "kc"}
   Cmds = {"g"}
-  Callers = {1, 2, 3}
+  Callers = {1, 2, 3, 4}
   OpKinds = {"multi", "mget"}
   MinMulti = 1
   MaxBatch = 4
@@ -12,7 +12,7 @@ CONSTANTS
   Mode = "optin"
   MaxFlush = 0
   MaxExpire = 1
-  MaxFail = 0
+  MaxFail = 1
   MaxCut = 0
   MaxPlain = 0
   Cancelable = {}
@@ -28,5 +28,10 @@ CONSTANTS
   BugCancelNoWake = FALSE
   BugRefill = FALSE
   BugNoClose = FALSE
+  Redis6 = FALSE
+  BugPurgeStop = FALSE
+  BugPendingExpires = FALSE
+  BugSkipEmbedded = FALSE
+  RaceFlight = FALSE
 INVARIANTS CasePrint
 CHECK_DEADLOCK FALSE
